@@ -138,7 +138,7 @@ ExitViol(st, e) ==
   \cup (IF ok /\ ~st.commitAcked THEN {V("C04", "SuccessWithoutAcknowledgedCommit", "", e)} ELSE {})
   \cup (IF ok /\ ~(st.closeDbAcked /\ st.closeSessAcked) THEN {V("C04", "SuccessWithoutAcknowledgedClose", "", e)} ELSE {})
   \cup (IF ok /\ st.faulted THEN {V("C04", "FailedStepButRunReportedSuccess", "", e)} ELSE {})
-  \cup (IF ~ok /\ ~st.faulted /\ st.irrmode = "ok" /\ ~e.timed_out
+  \cup (IF ~ok /\ ~st.faulted /\ st.irrmode = "ok" /\ ~e.timed_out /\ ~(Has(st.expect, "foreign") /\ st.expect.foreign)
         THEN {V(st.expect.prop, "RunFailedWithoutAnyFault",
                 IF e.panicked THEN "a task panicked" ELSE IF st.repeat THEN "repeat run (read-back of the installed state)" ELSE "exit " \o ToString(e.code), e)}
         ELSE {})
